@@ -143,6 +143,7 @@ structure Ans where
   oTail : String       -- the groups `o`, `xp`, `xe` as printed (echoed by the model)
   xp : List Float
   xe : List Float
+  xq : List Float      -- triples (x, qProb x, pProb (qProb x)) for the quantiles the discretisation asked for
   qs : List (List QP)  -- the parameters of the object, of its components, of the second object and of its components
   altPart : Option String   -- the dump of the second object as printed
 
@@ -159,14 +160,15 @@ def parseAns (t0 : List String) : Option Ans :=
     let groups := splitTok ";" mainT
     let grp (tag : String) : List String := match groups.find? (fun g => g.head? == some tag) with | some g => g.drop 1 | none => []
     match parseDD groups, parseEnts (grp "o"), subT.mapM (fun st => parseDD (splitTok ";" st)),
-          (grp "xp").mapM float?, (grp "xe").mapM float? with
-    | some d, some es, some subs, some xp, some xe =>
+          (grp "xp").mapM float?, (grp "xe").mapM float?, (grp "xq").mapM float? with
+    | some d, some es, some subs, some xp, some xe, some xq =>
       some { exc := exc, main := d, subs := subs, ents := es,
-             oTail := " ; o " ++ " ".intercalate (grp "o") ++ " ; xp " ++ " ".intercalate (grp "xp") ++ " ; xe " ++ " ".intercalate (grp "xe"),
-             xp := xp, xe := xe,
+             oTail := " ; o " ++ " ".intercalate (grp "o") ++ " ; xp " ++ " ".intercalate (grp "xp") ++ " ; xe " ++ " ".intercalate (grp "xe") ++
+               " ; xq " ++ " ".intercalate (grp "xq"),
+             xp := xp, xe := xe, xq := xq,
              qs := qGroups t ++ (match altT with | some a => qGroups a | none => []),
              altPart := altT.map (fun a => " ".intercalate a) }
-    | _, _, _, _, _ => none
+    | _, _, _, _, _, _ => none
   | [] => none
 
 /-- a double as an extended bound -/
@@ -229,6 +231,30 @@ def exploreClauses (s : DD Float) (eqProbBranch meanValued resolvedOk medianResc
       (let m := discreteMean s
        let pm := (xe.getLastD 0 - xe.headD 0) / cond
        absF (m - pm) ≤ 1e-6 * (1 + absF pm)))]
+
+/-- exploration of "pProb and qProb are mutually inverse" at the quantiles the discretisation asked for:
+`pProb (qProb x) = x` up to 2% of the smaller tail mass `min x (1 - x)` (the quantile algorithms are
+accurate to about 1e-6 relative, qChisq's small-value branch to about 1%) — in particular in the far tails, where the domain carries too
+little mass for the other explorations.  Probabilities outside `]0,1[` and quantiles that left the
+domain (clamped by the discretisation) are skipped. -/
+def inverseClause (lo hi : Float) : List Float → Bool
+  | x :: q :: pq :: rest =>
+    (!(x > 0 && x < 1) || !(q > lo && q < hi) ||
+      -- a quantile that close to a non-zero end of the domain is not resolved by the doubles around it
+      absF (q - lo) < 1e-9 * absF lo || absF (hi - q) < 1e-9 * absF hi ||
+      absF (pq - x) ≤ 2e-2 * (if x < 1 - x then x else 1 - x) + 1e-13) && inverseClause lo hi rest
+  | _ => true
+
+/-- exploration of `q_ge_lo` / `q_le_hi` (consequences of `H`): a quantile asked for a probability
+strictly between `pProb lower` and `pProb upper` lies inside the domain.  Judged where the mass of
+the domain is resolved by the doubles (`cond ≥ 1e-9·max |P|`) and the probability is at least
+0.1% of that mass away from both ends.  Covers the error value -1 of qGamma. -/
+def quantileInDomain (lo hi pl ph : Float) : List Float → Bool
+  | x :: q :: _ :: rest =>
+    let cond := ph - pl
+    (!(cond ≥ 1e-9 * maxF (absF pl) (absF ph)) || !(x > pl + 1e-3 * cond && x < ph - 1e-3 * cond) ||
+      (q ≥ lo - 1e-9 * (1 + absF lo) && q ≤ hi + 1e-9 * (1 + absF hi))) && quantileInDomain lo hi pl ph rest
+  | _ => true
 
 /-! ### constructors -/
 
@@ -387,10 +413,14 @@ def judgeState (s : St) (es : List Ent) (a : Ans) : String :=
       if !hasPar then firstFail [("values_strict_mono", valuesStrictMono d)] else
       firstFail (
         [("search_parent_quantile_sentinel", !sentinel),
+         ("search_parent_inverse", inverseClause f.dd.dom.lo f.dd.dom.hi a.xq),
+         ("search_parent_quantile_in_domain", quantileInDomain f.dd.dom.lo f.dd.dom.hi (par.P f.dd.dom.lo) (par.P f.dd.dom.hi) a.xq),
          ("n_classes", nClassesOk d),
-         ("probs_sum_one", probsSumOne 1e-9 d || !(eqB || wc)),
+         -- on a domain without mass both schemes give equal probabilities (exact); with mass the
+         -- equal-interval masses are differences of pProb divided by the mass: judged where well-conditioned
+         ("probs_sum_one", probsSumOne 1e-9 d || !(eqB || wc || !(cond > 0))),
          ("values_strict_mono", valuesStrictMono d),
-         ("probs_nonneg", probsNonneg d || !(eqB || wc)),
+         ("probs_nonneg", probsNonneg d || !(eqB || wc || !(cond > 0))),
          ("equal_mass", !eqB || equalMass d)] ++
         (if wc || fallback then
           [("bounds_monotone_in_domain", boundsMonoInDom d),
@@ -400,7 +430,8 @@ def judgeState (s : St) (es : List Ent) (a : Ans) : String :=
         -- theorem `when_possible_distinct_bounds` (in doubles: classes wider than the spacing of the doubles)
         (if f.dd.scheme == 3 && (f.dd.dom.hi - f.dd.dom.lo) / Float.ofNat f.dd.n > 1e-9 * (1 + absF f.dd.dom.lo + absF f.dd.dom.hi)
          then [("when_possible_distinct_bounds", !(hasEqualNeighbours d.allBounds))] else []) ++
-        (if wc then exploreClauses d eqB (!f.dd.median && eqB) rs (eqB && f.dd.median && !fallback && rescaledB par f.dd) a.xp a.xe else []))
+        -- mean-valued classes are explored where none of them fell back to the midpoint of its bounds
+        (if wc then exploreClauses d eqB (!f.dd.median && eqB && noMeanFallback par f.dd) rs (eqB && f.dd.median && !fallback && rescaledB par f.dd) a.xp a.xe else []))
     | .leaf (.const _) => firstFail (compoundClauses [] a.main ++ [("n_classes", a.main.dist.length == 1 && a.main.n == 1)])
     | .leaf (.simple ss) => firstFail (compoundClauses [] a.main ++
         [("n_classes", a.main.dist.length == ss.vs.length && a.main.n == ss.vs.length),
@@ -428,7 +459,7 @@ def stepChange (s : St) (impl : Option (List String)) (touchesAlt : Bool) (f : L
   let ans := impl.bind parseAns
   let es := match ans with | some a => a.ents | none => []
   let (s', err) := f es
-  let oTail := match ans with | some a => a.oTail | none => " ; o ; xp ; xe"
+  let oTail := match ans with | some a => a.oTail | none => " ; o ; xp ; xe ; xq"
   -- an answer without a current object: `[exc:…] none [// alt]`
   let noneAns : Option (Option String) := match impl with
     | some t =>
@@ -612,6 +643,8 @@ def step (s : St) (op : List String) (impl : Option (List String)) : St × Strin
       let r2 := onCur r.1 (orc es) (fun i => .assign i k)
       ({ r2.1 with alt := some k }, r2.2)
   | ["dump"] => stepChange s impl false fun _ => (s, none)
+  -- `*cur = *cur`: the assignment operators return at once
+  | ["selfassign"] => stepChange s impl false fun _ => (s, none)
   | _ =>
   -- queries on the compound / family's top-level object
   let d := c.top
